@@ -304,6 +304,8 @@ class SMCSampler(MCMCSampler):
             last_beta = self.history.beta[-1] if self.history.beta else beta
             if last_beta >= 1.0:
                 run_smc_loop = False
+            if max_n_steps is not None and iterations >= max_n_steps:
+                run_smc_loop = False
 
         def maybe_checkpoint(force: bool = False):
             if checkpoint_callback is None:
